@@ -196,3 +196,15 @@ pub fn module_stats(mark_payload: u64, mark_seq: u64) -> ModuleStats {
 pub fn alloc_violation_text() -> String {
     vmon::alloc::violations().iter().map(|v| format!("kind={} ptr={:#x} alloc(size={},align={}) free(size={},align={})", v.kind, v.ptr, v.alloc_size, v.alloc_align, v.free_size, v.free_align)).collect::<Vec<_>>().join("; ")
 }
+
+/// grows a vector it did not necessarily allocate: inserts at the front (the path that shifts), then pushes
+pub fn grow_vec(mut v: cglue::vec::CVec<u64>, k: u64) -> cglue::vec::CVec<u64> {
+    for i in 0..k {
+        if i % 2 == 0 {
+            v.insert(0, i ^ 0xa5);
+        } else {
+            v.push(i);
+        }
+    }
+    v
+}
